@@ -222,6 +222,54 @@ def override_cells(quick):
     return out
 
 
+def struct_cells(quick):
+    """(a) contour_integral_quad seeds its 20-step Lanczos estimate of the extreme eigenvalues with the FIRST COLUMN of the
+    right-hand side: operators with block structure (a dense block-diagonal matrix whose blocks live on different scales,
+    Kronecker(dense, diag[1, 200])) and a generic dense control x first column generic / coordinate vector / eigenvector, for
+    the direct call (both directions), sqrt_inv_matmul (with and without lhs) and ciq sampling with num_samples below, at and
+    above N (base samples = random orthonormal rows / columns, never the identity).
+    (b) the operator class with an ACTIVE preconditioner (AddedDiag(Root(W), Diag(d)), min_preconditioning_size lowered,
+    inexact rank-1 pivoted Cholesky) for every entry point; the direct call gets an orthogonal right-hand side so that the
+    Gram matrix R R^T of the computed root is observable."""
+    out = []
+    k = 0
+    ops = [("blockdiag", 6, None, 1e3, "block"), ("krondiag", 8, (4, 2), 1e3, "block"), ("dense", 6, None, 1e2, "geometric")]
+    for op, n, fac, kappa, fam in ops:
+        for batch in ([[], [2]] if op != "dense" else [[]]):
+            base = dict(op=op, n=n, batch=batch, fam=fam, kappa=kappa, scale=1.0, model=False, set_nq=None)
+            if fac:
+                base["factors"] = list(fac)
+            for r0 in [None, "e1", "eig"]:
+                for call, var in [("direct", True), ("direct", False), ("sim", None), ("sim", 1)]:
+                    k += 1
+                    if quick and r0 is not None and k % 2:
+                        continue
+                    c = dict(base, call=call, rhs0=r0, t=[2, 3][k % 2], inverse=True, set_tol=[None, 1e-10][k % 2])
+                    if call == "direct":
+                        c["inverse"] = var
+                    else:
+                        c["lhs"] = var
+                    out.append(c)
+            for ns in ([n - 2, n, n + 3, 3 * n] if not quick or not batch else [n - 2, n + 3]):
+                k += 1
+                out.append(dict(base, call="sample", ns=ns, base="orth", t=1, inverse=False, set_tol=[None, 1e-10][k % 2]))
+    for n in [8, 12]:
+        for batch in [[], [2]]:
+            for pre in ([1, None] if not batch else [1]):
+                base = dict(op="lowrank_diag", n=n, batch=batch, fam="lowrank", kappa=1e2, scale=1.0, model=False, set_nq=None,
+                            precond=pre, set_tol=1e-10)
+                for call, var in [("direct", True), ("direct", False), ("sim", None), ("sim", 2)]:
+                    c = dict(base, call=call, inverse=True)
+                    if call == "direct":
+                        c.update(inverse=var, t=n, rhs_kind="orth")
+                    else:
+                        c.update(lhs=var, t=2)
+                    out.append(c)
+                for ns in [n - 2, n + 3]:
+                    out.append(dict(base, call="sample", ns=ns, base="orth", t=1, inverse=False))
+    return out
+
+
 def ciq_specs(quick, seed):
     """list of specs for contour_integral_quad / sqrt_inv_matmul / ciq sampling; `model` says whether the values are
     compared with the Gallina model (whole MINRES runs: only well-conditioned spectra, DESIGN 2.4)"""
@@ -313,6 +361,10 @@ def ciq_specs(quick, seed):
     # different batch shapes — including the coincidence sizes (batch = n, O = n, t = n) where a reduction over the wrong
     # axis keeps the shape
     for cell in override_cells(quick):
+        i += 1
+        add(**cell)
+    # the eigenvalue-estimate mechanism and preconditioned operators, for every CIQ entry point
+    for cell in struct_cells(quick):
         i += 1
         add(**cell)
     # known-finding cells
